@@ -27,6 +27,8 @@ use crate::spec::{self, Pos, MK};
 use arrayvec::ArrayVec;
 
 pub const MAXM: usize = 4;
+/// moves the stubbed generator may emit in this harness (<= MAXM); the quick tier uses 2
+static mut EMIT_LIMIT: usize = MAXM;
 
 static mut EMITTED: [Option<Move>; MAXM] = [None; MAXM];
 static mut N_EMITTED: usize = 0;
@@ -112,7 +114,7 @@ pub fn stub_get_moves<F: FnMut(Move)>(piece: Piece, mut push: F, _game: &Game, p
         let mut k = 0;
         while k < 2 {
             let emit: bool = kani::any();
-            if emit && N_EMITTED < MAXM {
+            if emit && N_EMITTED < EMIT_LIMIT {
                 let m = any_move_from(piece, pos, ROOT_WHITE);
                 // the generator emits no move twice (lemma L2)
                 let mut j = 0;
@@ -204,6 +206,13 @@ pub fn stub_is_targeted(_game: &Game, pos: Position, who: Player) -> bool {
 }
 
 pub fn filter_body(king: usize, verify: bool, king_missing: bool, witness: bool) {
+    filter_body_n(king, verify, king_missing, witness, MAXM)
+}
+
+pub fn filter_body_n(king: usize, verify: bool, king_missing: bool, witness: bool, limit: usize) {
+    unsafe {
+        EMIT_LIMIT = limit;
+    }
     // Sparse concrete board: the mover's king on `king`, one more piece of the mover, the
     // enemy king far away.  What the filter sees of the position beyond that comes through
     // the stubs (symbolic moves, symbolic attack answers).
@@ -340,6 +349,24 @@ f_instance!(c01_filter_checked_a5, 32, true, false, false);
 f_instance!(c01_filter_unchecked_d4, 27, false, false, false);
 f_instance!(c01_filter_king_missing_d4, 27, true, true, false);
 f_instance!(c01_filter_witness, 27, true, false, true);
+
+macro_rules! f2_instance {
+    ($name:ident, $king:expr, $witness:expr) => {
+        #[cfg_attr(kani, kani::proof)]
+        #[cfg_attr(kani, kani::unwind(9))]
+        #[cfg_attr(kani, kani::stub(crate::chess::verif_hooks::Piece::get_moves, stub_get_moves))]
+        #[cfg_attr(kani, kani::stub(crate::chess::Game::push, stub_push))]
+        #[cfg_attr(kani, kani::stub(crate::chess::Game::pop, stub_pop))]
+        #[cfg_attr(kani, kani::stub(crate::chess::Game::is_targeted, stub_is_targeted))]
+        pub fn $name() {
+            filter_body_n($king, true, false, $witness, 2)
+        }
+    };
+}
+
+f2_instance!(c01_filter2_checked_d4, 27, false);
+f2_instance!(c01_filter2_checked_e1, 4, false);
+f2_instance!(c01_filter2_witness, 27, true);
 
 macro_rules! l3_instance {
     ($name:ident, $sq:expr) => {
